@@ -25,6 +25,8 @@ class Abstractor:
     def __init__(self):
         self.memo = {}
         self.used = False
+        self.depth = 0                 # quantifier nesting
+        self.products = {}             # ground abstracted binary products: id -> (m, a, b)
 
     def run(self, e):
         k = e.get_id()
@@ -50,7 +52,10 @@ class Abstractor:
                 f = MUL_R if others[0].sort() == z3.RealSort() else MUL_I
                 acc = others[0]
                 for o in others[1:]:
+                    prev = acc
                     acc = f(acc, o)
+                    if self.depth == 0 and len(self.products) < 400:
+                        self.products[acc.get_id()] = (acc, prev, o)
                 for n_ in nums:
                     acc = n_ * acc
                 return acc
@@ -68,7 +73,11 @@ class Abstractor:
         consts = [z3.Const('qv!%s!%d' % (q.var_name(i), q.get_id()), q.var_sort(i)) for i in range(n)]
         # de Bruijn: var index 0 is the innermost = last declared
         subst = list(reversed(consts))
-        body = self.run(z3.substitute_vars(q.body(), *subst))
+        self.depth += 1
+        try:
+            body = self.run(z3.substitute_vars(q.body(), *subst))
+        finally:
+            self.depth -= 1
         pats = []
         for i in range(q.num_patterns()):
             p = q.pattern(i)
@@ -152,13 +161,18 @@ def discharge(hyps, goal, timeout_ms=20000, use_cvc5=False, seed=0, want_model=T
         xi, yi = z3.Ints('cm_i cm_j')
         fs_struct = fs_struct + [z3.ForAll([xr, yr], MUL_R(xr, yr) == MUL_R(yr, xr), patterns=[MUL_R(xr, yr)]),
                                  z3.ForAll([xi, yi], MUL_I(xi, yi) == MUL_I(yi, xi), patterns=[MUL_I(xi, yi)])]
+        # sign lemmas of the ground products (valid for real / integer multiplication; the usual first step of incremental
+        # linearisation): m = 0 <-> a = 0 or b = 0;  m > 0 <-> a, b have the same strict sign
+        for m_, a_, b_ in ab.products.values():
+            fs_struct.append((m_ == 0) == z3.Or(a_ == 0, b_ == 0))
+            fs_struct.append((m_ > 0) == z3.Or(z3.And(a_ > 0, b_ > 0), z3.And(a_ < 0, b_ < 0)))
     # interleaved portfolio (encodings x seeds x growing budgets): either encoding may be the lucky one, and E-matching
     # luck varies a lot with the seed, so cheap early attempts remove most of the run-to-run variance
-    plan = [('alg', 0.1, 0)]
+    plan = [('alg', 0.03, 0)]
     if ab.used:
-        plan += [('str', 0.08, 0), ('str', 0.3, 7), ('alg', 0.35, 11), ('str', 0.6, 14), ('alg', 1.0, 22)]
+        plan += [('str', 0.03, 0), ('alg', 0.1, 3), ('str', 0.1, 5), ('str', 0.3, 7), ('alg', 0.35, 11), ('str', 0.6, 14), ('alg', 1.0, 22)]
     else:
-        plan += [('alg', 0.35, 11), ('alg', 1.0, 22)]
+        plan += [('alg', 0.1, 3), ('alg', 0.35, 11), ('alg', 1.0, 22)]
     v, model, why = 'unknown', None, ''
     struct_sat = False
     for enc, frac, ds in plan:
